@@ -180,6 +180,11 @@ def run_given(rec, strategy, body, seed, max_examples, kind=None, max_buckets=3,
             except Inconclusive as e:
                 rec.inconclusive.append(str(e))
                 return
+            except Exception as e:
+                if type(e).__name__ in ('OutOfDomain', 'BadEmit'):
+                    rec.exclude(type(e).__name__ + ':' + str(e)[:60])
+                    return
+                raise
 
         st = settings(
             max_examples=max_examples,
